@@ -1087,8 +1087,11 @@ def contracts(reg):
     for every payload and every cursor position it returns the base64 text of the WHOLE payload and leaves the cursor where it
     was.  Contract, value model (`PV` payload + ghost cursor) and executor are those of the C05 pack (contracts/C05.py), the
     obligations are C06's own (`C06/serialization.py::_bytesio_to_base64/returns`, `/ensures#stream-position-restored`)."""
-    from contracts import C05, C06_xlsx
-    return [c for c in C05.contracts(reg) if c.target.endswith("::_bytesio_to_base64") or c.assumed] + C06_xlsx.contracts(reg)
+    from contracts import C05, C06_xlsx, C06_zip
+    # round 7: C05's assumed contract on `read_file` is no longer carried along -- no obligation of C06 goes through it
+    # (`_bytesio_to_base64` calls nothing of the package); `validate_zip_bytesio` joins the deductively verified functions.
+    out = [c for c in C05.contracts(reg) if c.target.endswith("::_bytesio_to_base64")]
+    return out + C06_xlsx.contracts(reg) + C06_zip.contracts(reg)
 
 
 def _executor():
@@ -1110,7 +1113,12 @@ def _executor():
     return C06Executor
 
 
-EXECUTOR = _executor()
+def _dispatch():
+    from contracts import C06_zip
+    return C06_zip.executor_for(_executor())      # zip_bomb.py runs on pack C11's executor (round 7), everything else on C06Executor
+
+
+EXECUTOR = _dispatch()
 
 
 def post_report(c, rep):
@@ -1124,7 +1132,8 @@ def post_report(c, rep):
 
 
 TRUSTED = ["third-party parsers are deterministic functions of their input bytes", "PY-HASHSEED: dict iteration = insertion order; set iteration order arbitrary per process"]
-ASSUMED_MODELS = []
+from contracts.C06_zip import ASSUMED_HERE as _ZIP_ASSUMED  # noqa: E402
+ASSUMED_MODELS = list(_ZIP_ASSUMED)
 ASSUMPTIONS = ["fresh-process / hash-seed equality follows from the obligation families only under the trusted-base assumptions; as an executed fact it is only validated on the bounded corpus",
                "aliasing is tracked by names rooted at `self` (constructor calls and copies are fresh)", "effect/qualifier obligations are decided by AST analysis (back end 'dataflow'), not SMT "
                "(exception: serialization._bytesio_to_base64 is verified deductively with the C05 value model)",
